@@ -10,7 +10,8 @@ per walk entry its kind.  Enumerated: the depth of the start directory, the root
 
 Post-conditions
   root:  Ok(nearest ancestor-or-self that holds a .git or .hg directory); Err iff there is none.
-  walk:  exactly the non-directory entries, in walk order, each as its path relative to the root
+  walk:  exactly the entries that are files or symbolic links to files (directories and links to
+         directories are not files), in walk order, each as its path relative to the root
          (the root prefix removed once, nothing else); an error entry comes through as Err.
   read:  the file read is root/<relative path>.
 """
@@ -114,7 +115,8 @@ def run_walkfs(task):
     base = root.rstrip(b'/')
 
     def run_path(I):
-        kinds = [I.fresh_int('kind%d' % i, 0, 2) for i in range(len(rels))]     # 0 file, 1 directory, 2 error
+        # 0 file, 1 directory, 2 error, 3 symbolic link to a file, 4 symbolic link to a directory
+        kinds = [I.fresh_int('kind%d' % i, 0, 4) for i in range(len(rels))]
         holder['kinds'] = kinds
         reads = []
         holder['reads'] = reads
@@ -139,7 +141,22 @@ def run_walkfs(task):
 
         def is_dir(I2, a, ci, dt):
             p = bytes(as_sstr(I2, a[0]).b)
-            return kinds[full.index(p)] == 1
+            k = kinds[full.index(p)]
+            return z3.Or(k == 1, k == 4)            # Path::is_dir follows symbolic links
+
+        def entry_of(I2, v):
+            while isinstance(v, Ref):
+                v = I2.load(v)
+            return v
+
+        # DirEntry::file_type / std::fs::FileType do NOT follow links (the walker does not either by default)
+        def file_type(I2, a, ci, dt):
+            return Some(Struct('FileType', (entry_of(I2, a[0]).f[0],)))
+        I.stubs['DirEntry::file_type'] = file_type
+        I.stubs['FileType::is_file'] = lambda I2, a, ci, dt: kinds[entry_of(I2, a[0]).f[0]] == 0
+        I.stubs['FileType::is_dir'] = lambda I2, a, ci, dt: kinds[entry_of(I2, a[0]).f[0]] == 1
+        I.stubs['FileType::is_symlink'] = lambda I2, a, ci, dt: z3.Or(kinds[entry_of(I2, a[0]).f[0]] == 3, kinds[entry_of(I2, a[0]).f[0]] == 4)
+        I.stubs['DirEntry::path_is_symlink'] = lambda I2, a, ci, dt: z3.Or(kinds[entry_of(I2, a[0]).f[0]] == 3, kinds[entry_of(I2, a[0]).f[0]] == 4)
 
         def fs_read(I2, a, ci, dt):
             reads.append(bytes(as_sstr(I2, a[0]).b))
@@ -193,18 +210,19 @@ def run_walkfs(task):
         # (the path condition fixes every kind to one of the three by the branches the code took)
         exp = []
         for i, r in enumerate(rels):
-            if I.check(kinds[i] == 2) and not I.check(kinds[i] != 2):
+            is_err, is_dirlike, is_filelike = kinds[i] == 2, z3.Or(kinds[i] == 1, kinds[i] == 4), z3.Or(kinds[i] == 0, kinds[i] == 3)
+            if not I.check(z3.Not(is_err)):
                 exp.append(('err', None))
-            elif I.check(kinds[i] == 1) and not I.check(kinds[i] != 1):
+            elif not I.check(z3.Not(is_dirlike)):
                 pass
-            elif I.check(kinds[i] == 0) and not I.check(kinds[i] != 0):
+            elif not I.check(z3.Not(is_filelike)):
                 exp.append(('ok', r))
             else:
                 exp.append(('undecided', i))
         if any(e[0] == 'undecided' for e in exp):
             # the code did not look at the kind of some entry: then its treatment cannot depend on it
             amb = [e[1] for e in exp if e[0] == 'undecided']
-            viol(I, True, 'walk-ignores-entry-kind', 'the walk does not ask whether entry %s is a directory' % [rels[i].decode() for i in amb])
+            viol(I, True, 'walk-ignores-entry-kind', 'the walk treats entry %s alike whether it is a file (or a link to one) or a directory (or a link to one)' % [rels[i].decode() for i in amb])
         elif got != exp:
             viol(I, True, 'walk-yields-wrong-paths', 'walk yields %s, expected %s' % (got, exp))
         reads = holder['reads']
@@ -256,15 +274,21 @@ def confirm_root(binary, prop, v, idx):
 
 
 def confirm_walk(binary, prop, v, idx):
-    """Replay: a repository with files in sub-directories: every file is listed under its path relative to the root."""
+    """Replay: a repository with files in sub-directories, a symbolic link to a file and one to a directory:
+    every file (and the link to a file) is listed under its path relative to the root."""
     files = {'a.py': '# <block name="a">\n# </block>\n', 'b/b.py': '# <block name="b">\n# </block>\n',
-             'b/c/d.py': '# <block name="d">\n# </block>\n'}
+             'b/c/d.py': '# <block name="d">\n# </block>\n', 'outside/t.txt': 'no blocks\n',
+             'outside/target.py': '# <block name="linked">\n# </block>\n'}
+    links = {'link.py': 'outside/target.py', 'ldir.py': 'b/c'}
+    want = sorted(['a.py', 'b/b.py', 'b/c/d.py', 'link.py', 'outside/target.py'])
     d = scratch_dir('fswalk')
     try:
         git_init(d)
         for fn, content in files.items():
             os.makedirs(os.path.dirname(os.path.join(d, fn)) or d, exist_ok=True)
             open(os.path.join(d, fn), 'w').write(content)
+        for ln, target in links.items():
+            os.symlink(target, os.path.join(d, ln))
         r = run_blockwatch(binary, d, ['list', '**/*.py'], stdin=b'')
     finally:
         shutil.rmtree(d, ignore_errors=True)
@@ -273,9 +297,11 @@ def confirm_walk(binary, prop, v, idx):
     except ValueError:
         keys = None
     v['observed'] = dict(code=r['code'], keys=keys, stderr=r['stderr'][-300:])
-    v['expected'] = sorted(files)
-    v['confirmed'] = keys != sorted(files)
+    v['expected'] = want
+    v['confirmed'] = keys != want
     if v['confirmed']:
-        v['replay'] = save_replay(prop, 'fswalk-%s-%d' % (v['role'], idx), {k: c.encode() for k, c in files.items()},
-                                  "list '**/*.py'", 'expected keys %s; %s' % (sorted(files), v['summary']), v)
+        fs = {k: c.encode() for k, c in files.items()}
+        fs['make_links.sh'] = ''.join('ln -s %s %s\n' % (t, l) for l, t in links.items()).encode()
+        v['replay'] = save_replay(prop, 'fswalk-%s-%d' % (v['role'], idx), fs,
+                                  "list '**/*.py'  (after sh make_links.sh)", 'expected keys %s; %s' % (want, v['summary']), v)
     return v
